@@ -9,7 +9,6 @@ import (
 	"os"
 	"runtime/debug"
 	"sort"
-	"strings"
 	"sync"
 	"sync/atomic"
 	"testing"
@@ -56,18 +55,15 @@ type scenario struct {
 	DupAttempt bool     `json:"dup,omitempty"`
 	BusyName   bool     `json:"busyname,omitempty"`
 	Racers     []racer  `json:"racers,omitempty"`
-	// WithKnown (run mode only): registrations into a drained order - the signature of the open known finding KF-C20-1 -
-	// are performed instead of skipped; a recovered sync.WaitGroup panic of Run then counts as that known finding and
-	// ends the case, everything else the scenario shows is judged as usual
+	// WithKnown is obsolete (kept so that stored replays still parse): it used to select whether registrations into a
+	// drained order - the signature of the former known finding KF-C20-1, fixed in /repo by 90c8b2e - were performed.
+	// They always are now, and a panic of Run is a violation like any other.
 	WithKnown bool `json:"with_known,omitempty"`
 }
 
 func genScenario(t *rapid.T) scenario {
 	var sc scenario
 	sc.StartMode = rapid.SampledFrom([]string{"start", "start", "start", "run", "run", "never"}).Draw(t, "start")
-	if sc.StartMode == "run" {
-		sc.WithKnown = rapid.Bool().Draw(t, "withKnown")
-	}
 	n := rapid.IntRange(1, 8).Draw(t, "workers")
 	for i := 0; i < n; i++ {
 		w := wspec{Name: fmt.Sprintf("w%d", i), Order: rapid.SampledFrom(orderPool).Draw(t, "order")}
@@ -214,12 +210,7 @@ func runScenario(t fataler, sc scenario) {
 				failure = fmt.Sprintf("panic in the controller goroutine (inside a daemon call): %v\n%s", p, debug.Stack())
 			}
 		}()
-		known := false
-		failure = execScenario(sc, labels, &nontrivial, sc.WithKnown, &known)
-		if known {
-			stats.Known(knownRunWaitGroupReuse)
-			labels["known_run_waitgroup_reuse_observed"] = true
-		}
+		failure = execScenario(sc, labels, &nontrivial)
 	}()
 	if !ctl.WaitChan(done, 3*ctl.HangTimeout) {
 		failure = "hang: scenario controller did not finish\n" + ctl.Dump()
@@ -239,19 +230,9 @@ func runScenario(t fataler, sc scenario) {
 	stats.Case(checkOrder, nontrivial, string(js), func() any { return sc }, ls...)
 }
 
-// knownRunWaitGroupReuse is the proposed open known finding KF-C20-1: Run waits on the per-order WaitGroups; when all
-// workers of an order have finished and a worker is registered into that order again while Run is still inside (or on
-// its way out of) that WaitGroup's Wait, sync.WaitGroup panics ("WaitGroup is reused before previous Wait has
-// returned" / "WaitGroup misuse: Add called concurrently with Wait") in the goroutine that called Run.
-const knownRunWaitGroupReuse = "KF-C20-1"
-
-const knownMarker = "\x00known"
-
-// execScenario runs one scenario. With includeKnown=false the signature of KF-C20-1 (start mode "run" and a registration
-// into an order whose workers have all finished) is excluded by construction: such registrations are skipped and counted.
-// With includeKnown=true they are performed and a recovered WaitGroup panic of Run is reported through *known (the
-// scenario then ends at once with an empty failure).
-func execScenario(sc scenario, labels map[string]bool, nontrivial *bool, includeKnown bool, known *bool) (failure string) {
+// execScenario runs one scenario. (Registrations into an order whose workers have all finished while Run is waiting -
+// the signature of the former known finding KF-C20-1 - are performed like any other; label registration_into_drained_order.)
+func execScenario(sc scenario, labels map[string]bool, nontrivial *bool) (failure string) {
 	clk := &ctl.Clock{}
 	d := daemon.New()
 	var runPanic atomic.Value
@@ -288,9 +269,6 @@ func execScenario(sc scenario, labels map[string]bool, nontrivial *bool, include
 		if failure != "" {
 			go d.ShutdownAndWait()
 		}
-		if failure == knownMarker {
-			failure = ""
-		}
 	}()
 	drained := func(order int) bool {
 		if sc.StartMode != "run" || !everRan[order] {
@@ -304,21 +282,16 @@ func execScenario(sc scenario, labels map[string]bool, nontrivial *bool, include
 
 		return true
 	}
-	excluded := func() {
-		labels["excluded_known_run_waitgroup_reuse"] = true
-		stats.NoteAdd(checkOrder, "excluded_known_"+knownRunWaitGroupReuse, 1)
+	noteDrained := func(order int) {
+		if drained(order) {
+			labels["registration_into_drained_order"] = true
+		}
 	}
 
 	// invariant checked inside every wait loop: nobody with a lower order has seen its cancel while a worker with a
 	// higher order (running at shutdown) has not returned; no waiting caller has returned while such a worker runs.
 	invariant := func() string {
 		if p, _ := runPanic.Load().(string); p != "" {
-			if includeKnown && strings.Contains(p, "WaitGroup") {
-				*known = true
-
-				return knownMarker
-			}
-
 			return "Run panicked: " + p
 		}
 		shutMu.Lock()
@@ -535,9 +508,8 @@ func execScenario(sc scenario, labels map[string]bool, nontrivial *bool, include
 					return f
 				}
 				labels["early_finisher"] = true
-				if ws.Beh == "early_rereg" && !includeKnown && drained(ws.ReOrder) {
-					excluded()
-				} else if ws.Beh == "early_rereg" {
+				if ws.Beh == "early_rereg" {
+					noteDrained(ws.ReOrder)
 					nw, err := register(ws.Name, ws.ReOrder, false, ws.ReBeh == "hold")
 					if err != nil {
 						return fmt.Sprintf("re-registering the finished worker %s failed: %v", ws.Name, err)
@@ -601,11 +573,7 @@ func execScenario(sc scenario, labels map[string]bool, nontrivial *bool, include
 		}()
 	}
 	for _, rs := range sc.Racers {
-		if !includeKnown && drained(rs.Order) {
-			excluded()
-
-			continue
-		}
+		noteDrained(rs.Order)
 		r := &racerRun{spec: rs, inst: newInst(rs.Name, rs.Order, false), done: make(chan struct{})}
 		racers = append(racers, r)
 		if rs.Phase != "free" {
